@@ -279,7 +279,7 @@ class P(Prop):
     ]
     partial = []
     open_statements = [
-        "IEEE doubles: optimal_rounded_fl proves T2-up-to-rounding for the addition a (+) b = fl(a + b) of ANY rounding function fl on an ordered field that is (1) monotone and (2) within u|x| of x (no associativity; monotonicity of the rounded addition and of the embedding are now derived, not assumed). What stays assumed about binary64 is exactly that the sum of two doubles is fl(exact sum) for such an fl with u = 2^-53 — true of round-to-nearest-even when no sum overflows and no operand is NaN (sums in the subnormal range are exact); Float is opaque in Lean, so (1) and (2) are not proved for the hardware and are what the transfer check on doubles samples, with the same tolerance shape and the generous constant 1e-9",
+        "IEEE doubles: optimal_bracketed_fl / optimal_rounded_fl prove T2 for bracketed sums / T2-up-to-rounding for the addition a (+) b = fl(a + b) of ANY rounding function fl on an ordered field that is (1) monotone and (2) within u|x| of x (no associativity; monotonicity of the rounded addition and of the embedding are now derived, not assumed). What stays assumed about binary64 is exactly that the sum of two doubles is fl(exact sum) for such an fl with u = 2^-53 — true of round-to-nearest-even when no sum overflows and no operand is NaN (sums in the subnormal range are exact); Float is opaque in Lean, so (1) and (2) are not proved for the hardware and are what the transfer check on doubles samples, with the same tolerance shape and the generous constant 1e-9",
         "findStopsGlobal: the model (findStopsGlobalPy) reads the observations (x, y, z, t), computes the squared planimetric distances and the durations itself and applies the three tests, the final filter and the identifiers; minCircle is now modelled ON ITS OWN (Model/MinCircle.lean: __welzl, __circle, ENUCoords.__eq__, the random draws as an explicit parameter; stream `mc`, theorems mincircle_*, circle_*), and composed with the reward matrix in the theorems (stops_fit_in_circle_mincircle: table circOfMinCircle, one draw sequence per call, minimality proved, enclosure the only hypothesis); in the DRIVEN findStopsGlobalPy its answers and the temporal resampling `track ** (size/downsampling)` remain parameters: driving the composition would need the draws of every minCircle call of a run (one global random stream shared by all segments) and the code's rounded square roots / complex circumcentre on doubles, so the check still computes the circles with exact rational geometry — except the entries where tracklib's minCircle returns None (recorded from the run) and circles through >= 3 distinct fixes whose exact diameter equals the limit (doubles decide: read off the run) — and takes the resampled track from tracklib; that the circles handed to the model enclose their segments (hypothesis hc of stops_criterion / find_stops_global) is CHECKED by the driver on every case (enclosedB, theorem enclosedB_sound); it is NOT true of tracklib's minCircle in general (theorem mincircle_not_enclosing), nor is minimality (hmin of stops_fit_in_circle): proved only for the leaves (circle_two_minimal, circle_three_minimal) and for inputs of <= 2 fixes (mincircle_small); for >= 3 fixes: every answer that encloses the input IS the minimal circle (mincircle_enclosing_is_minimal; cross-checked on every mc case against the harness's exact geometry), on <= 3 fixes every circle returned does (mincircle_three); for >= 4 fixes which draw sequences give an enclosing answer is open",
         "minCircle on doubles: the model is exact (squared radii, rational circumcentre); the stream `mc` compares tracklib's doubles with it up to 1e-9 and does not compare inputs where a fix lies exactly on the circle through three other fixes (the code tests it against a centre computed in rounded complex arithmetic: the doubles decide, and the number of draws then differs) — about 40 % of the inputs generated (lattice fixes are often cocircular), tagged in the input histogram",
         "findStopsGlobal with downsampling > 1: coordinates and times of the resampled track are interpolated doubles on which the code's own doubles (sqrt of a rounded sum, circumcentre, difference of absolute times) are not exact; a case with a value within 1e-9 of a threshold is not judged (tagged in the input histogram). Lengths are compared through their squares in the model (exact for the integer / dyadic tracks generated)",
@@ -1878,6 +1878,8 @@ P.theorems = P.theorems + [
 P.theorems = P.theorems + [
     ("TracklibVerif.Props.C12Round", "TV.C12.optimal_rounded_fl",
      "T2 for the addition a (+) b = fl(a + b), ANY rounding fl of an ordered field that is monotone and has relative error u: monotonicity of the rounded addition and of the embedding are proved, not assumed; same bound as optimal_rounded, both directions"),
+    ("TracklibVerif.Props.C12Round", "TV.C12.optimal_bracketed_fl",
+     "optimal_bracketed for the addition a (+) b = fl(a + b) of ANY monotone rounding fl: the monotonicity of the rounded addition is proved from that of fl"),
     ("TracklibVerif.Props.C12Collection", "TV.C12.collection_simplify_each",
      "T3: TrackCollection.simplify(cost, MODE_SIMPLIFY_FREE / _MAXIMIZE) returns, in order, simplify(track, cost, mode) of every track (each optimal for the requested direction by simplify_modes); if it raises, some simplify(track, ...) raised that exception after the earlier tracks were simplified"),
     ("TracklibVerif.Props.C12Dispatch", "TV.C12.find_stops_dispatch_verbose",
